@@ -78,7 +78,8 @@ static LineNumber write_define_hunk(LineWriter& output, const Hunk& hunk, const 
         Outside,
         InsideIFNDEF,
         InsideIFDEF,
-        InsideELSE,
+        InsideELSEOfIFNDEF, // that is, in the lines of the new file
+        InsideELSEOfIFDEF,  // that is, in the lines of the old file
     };
 
     DefineState define_state = DefineState::Outside;
@@ -115,11 +116,17 @@ static LineNumber write_define_hunk(LineWriter& output, const Hunk& hunk, const 
             }
             write_line(line);
         } else if (patch_line.operation == '+') {
+            // An added line which follows removed lines that already followed added lines needs a new conditional.
+            if (define_state == DefineState::InsideELSEOfIFDEF) {
+                write_directive("#endif", "", patch_line.line.newline);
+                define_state = DefineState::Outside;
+            }
+
             if (define_state == DefineState::Outside) {
                 define_state = DefineState::InsideIFDEF;
                 write_directive("#ifdef ", define, patch_line.line.newline);
             } else if (define_state == DefineState::InsideIFNDEF) {
-                define_state = DefineState::InsideELSE;
+                define_state = DefineState::InsideELSEOfIFNDEF;
                 write_directive("#else", "", patch_line.line.newline);
             }
             write_line(patch_line.line);
@@ -127,11 +134,17 @@ static LineNumber write_define_hunk(LineWriter& output, const Hunk& hunk, const 
             const auto& line = lines.at(line_number);
             ++line_number;
 
+            // Likewise for a removed line which follows added lines that already followed removed lines.
+            if (define_state == DefineState::InsideELSEOfIFNDEF) {
+                write_directive("#endif", "", line.newline);
+                define_state = DefineState::Outside;
+            }
+
             if (define_state == DefineState::Outside) {
                 define_state = DefineState::InsideIFNDEF;
                 write_directive("#ifndef ", define, line.newline);
             } else if (define_state == DefineState::InsideIFDEF) {
-                define_state = DefineState::InsideELSE;
+                define_state = DefineState::InsideELSEOfIFDEF;
                 write_directive("#else", "", line.newline);
             }
             write_line(line);
